@@ -111,7 +111,43 @@ theorem gen_dag_pyramid_replay (height : Int) : (dag_pyramid height) >>= replayD
   · rw [if_pos h, if_pos h]; rfl
   · rw [if_neg h, if_neg h, Py.ok_bind, replayDi_nat]
 
+/-- a fresh `BipartiteGraph(L, R)` to which the logged `add_edge` calls are applied in order -/
+def replayBip (B : (Int × Int) × List (Int × Int)) : Except Err BipG :=
+  (BipG.initI B.1.1 B.1.2) >>= fun G => G.addEdgesFrom B.2
+
+/-- `bipartite_shift(N, M, pattern)`: `BipartiteGraph(N, M)`, then for every left vertex and every offset of the SORTED
+pattern the call `add_edge(u, 1 + (u - 1 + offset) % M)` (Python's `%`; `M ≥ 1`, so no ZeroDivisionError) -/
+theorem gen_bipartite_shift_eq_model (N M : Int) (pattern : List Int) :
+    bipartite_shift N M pattern = if N < 1 ∨ M < 1 then Except.error Err.valueError
+      else Except.ok ((N, M), shiftCalls N.toNat M.toNat (sortInt pattern)) := by
+  simp only [bipartite_shift]
+  by_cases h : N < 1 ∨ M < 1
+  · rw [if_pos h, if_pos h]
+  · rw [if_neg h, if_neg h]
+    have hN : N = (N.toNat : Int) := by omega
+    have hM : M = (M.toNat : Int) := by omega
+    have hMpos : 0 < M.toNat := by omega
+    have hL : Py.Range.toList (Py.Range.mk 1 (N + 1)) = ints (rangeN 1 (N.toNat + 1)) := by
+      rw [Py.range_one_toList]
+    rw [hL, sorted_eq]
+    conv_lhs => rw [hM]
+    rw [Py.foldlM_ext _ _ (fun s a => rfl), shift_outer M.toNat hMpos, Py.ok_bind]
+    simp only [List.nil_append, shiftCalls]
+    rw [← hM]
+
+theorem gen_bipartite_shift_replay (N M : Int) (pattern : List Int) :
+    (bipartite_shift N M pattern) >>= replayBip = (GBuild.shift N M pattern).map (·.2) := by
+  rw [gen_bipartite_shift_eq_model]
+  unfold GBuild.shift
+  by_cases h : N < 1 ∨ M < 1
+  · rw [if_pos h, if_pos h]; rfl
+  · rw [if_neg h, if_neg h, Py.ok_bind]
+    have hN : ¬ (N < 0 ∨ M < 0) := by omega
+    simp only [replayBip, BipG.initI, hN, if_false, Py.ok_bind, bind, Except.bind]
+    cases (BipG.init N.toNat M.toNat).addEdgesFrom (shiftCalls N.toNat M.toNat (sortInt pattern)) <;> rfl
+
 /-- non-vacuity -/
+example : bipartite_shift 2 3 [2, 0] = Except.ok ((2, 3), [(1, 1), (1, 3), (2, 2), (2, 1)]) := by decide
 example : dag_path 3 = Except.ok (4, [(1, 2), (2, 3), (3, 4)]) := by decide
 example : dag_pyramid 2 = Except.ok (6, [(1, 4), (2, 4), (2, 5), (3, 5), (4, 6), (5, 6)]) := by decide
 example : dag_complete_binary_tree 1 = Except.ok (3, [(1, 3), (2, 3)]) := by decide
